@@ -7,8 +7,8 @@ CFG = dict(
     ],
     crate="nvh_c09", shard=60,
     header=H + "From NV.Common Require Import LockTable.\nFrom NV.C09 Require Import Model Run.\nOpen Scope N_scope.",
-    kinds={"rel": ("c09_case", "check_rel")},
-    known_classes={0: "rollback-after-lock-expiry", 1: "ddl-in-open-tx"},
+    kinds={"rel": ("c09_case", "check_rel"), "budget": ("c09_case", "check_budget")},
+    known_classes={0: "rollback-after-lock-expiry", 1: "ddl-in-open-tx", 2: "rollback-over-btree-budget"},
     rule="seeded scripts of 0-4 interleaved transactions (tx_insert/tx_update/tx_delete, commit, rollback, reuse after end) with non-transactional insert/update/delete_rows, hash and B-tree index creation, and row-lock expiry through the clock hook, on a real RelationalEngine and on the Gallina model; after every call: full scan, every Eq/Lt/Ge query on both columns (index paths), lock holders, lock and transaction counts",
     trusted_base=COMMON_TB + [
         "guarded clock hook relational_engine::transaction::verif_clock (commit de86fb99) replaces wall-clock reads by an explicit `now`",
@@ -16,6 +16,7 @@ CFG = dict(
     ],
     assumptions=[
         "single-threaded interleavings of whole API calls (each call is one step); TransactionManager::cleanup_expired (drops expired transactions without undo) has no production caller and is outside the alphabet",
+        "the model has no B-tree entry budget (max_btree_entries): cases that exhaust it (kind `budget`) are judged by the property oracle on the implementation's observations only",
         "float / NULL / string columns and the query planner beyond Eq/Lt/Ge/And are C04's subject, not modelled here",
     ],
 )
